@@ -62,6 +62,20 @@ template<typename S> inline auto bucket_count(const S& s, int) -> decltype((void
 template<typename S> inline size_t bucket_count(const S&, long) { return 0; }
 template<typename S> inline auto tree_height(const S& s, int) -> decltype((void)s.mRootNode, size_t()) { size_t h = 0; for (auto* n = s.mRootNode; n != nullptr; n = n->IsLeaf() ? nullptr : n->GetChild(0)) ++h; return h; }
 template<typename S> inline size_t tree_height(const S&, long) { return 0; }
+// iteration order of a tree is the key order (strict for unique keys): the premise of the linear-merge theorems, which the Coq side
+// proves to be an invariant of every step (C10_merge_linear_keeps_both_sorted); "" when fine or not a tree
+template<typename S> inline auto tree_order_error(const S& s, bool multi, int) -> decltype((void)s.mRootNode, std::string())
+{
+	bool first = true; int64_t prev = 0;
+	for (const auto& e : s)
+	{
+		int64_t k = keyof(e.Value());
+		if (!first && (multi ? k < prev : k <= prev)) return "key " + std::to_string(k) + " follows key " + std::to_string(prev);
+		prev = k; first = false;
+	}
+	return "";
+}
+template<typename S> inline std::string tree_order_error(const S&, bool, long) { return ""; }
 
 struct Counters { uint64_t copy, copy_assign; };
 inline Counters snap() { return Counters{ kit::W().n_copy, kit::W().n_copy_assign }; }
